@@ -271,6 +271,8 @@ func checkC09(sc *Scenario) *CheckOut {
 func init() {
 	rule := "a run is non-trivial when at least one planted handler panic actually fired"
 	register(&Profile{Prop: "C09", Name: "sequential", Quick: 24000, Thorough: 500000, Gen: genC09(false), Check: checkC09, Rule: rule, Faulty: true})
+	register(&Profile{Prop: "C09", Name: "concurrent-race", Race: true, Quick: 1500, Thorough: 40000, Gen: coarseRace(genC09(true)), Check: checkC09,
+		Rule: "as concurrent, executed under the race detector with coarse schedules", Faulty: true})
 	register(&Profile{Prop: "C09", Name: "concurrent", Quick: 18000, Thorough: 400000, Gen: genC09(true), Check: checkC09, Rule: rule, Faulty: true})
 }
 
